@@ -1,34 +1,86 @@
 /-
   C14, "every response equals the response computed from the document state at the moment the
-  request was handled": abstract model of the one piece of request-visible state that a
-  background goroutine writes without the handler thread waiting for it — `Server.resolved`.
+  request was handled" (and C01, "every feature answer is computed from that text and from no
+  older version"): the transition system of the one piece of request-visible state that a
+  background goroutine writes without the handler thread waiting for it — `Server.resolved`,
+  the per-document include tree.
 
-  internal/server/server.go (after "caches derived from a document never outlive the text they
-  were computed from"):
+  internal/server/server.go, with repo_patches/fix-resolved-pending.diff applied
+  (`fixed := true`; `fixed := false` is the code before that patch):
     * DidOpen / didChange store the text, then `nextDocVersion` (under docVerMu) draws a fresh
       number from the server-wide counter `docSeq`, records it in `docVersions[uri]`, DELETES
-      `resolved[uri]`, and `go s.publishDiagnosticsVersion(ctx, uri, content, version)` starts
-      the background task with the captured text and number;
-    * the task loads the include tree and `storeResolvedIfCurrent` (under docVerMu) stores it
-      only if `docVersions[uri]` still equals its number; a task that finds
-      `Features.Diagnostics` off returns before the load;
+      `resolved[uri]` (`dropDocCaches`), and `go s.publishDiagnosticsVersion(ctx, uri, content,
+      version)` starts the background task with the captured text and number;
+    * the task first reads the settings (`getSettings`, event `start`): with
+      `Features.Diagnostics` off it ends without loading; otherwise it loads the include tree of
+      its captured text and `storeResolvedIfCurrent` (under docVerMu, event `finish`) stores it
+      only if `docVersions[uri]` still equals its number;
     * DidClose (`dropDocVersion`) deletes the number and the tree;
-    * Completion, Hover, Definition, References (also Rename and inline completion) read
-      `resolved[uri]` through `getWorkspaceResolved` / `resolvedForDocument` /
-      `resolvedWithPrimaryPath` when the workspace has no resolved journal or — all but the two
-      completions — the document is outside the workspace root's include tree
-      (`workspaceResolvedFor`), and fall back to the document alone when there is none.
+    * the settings are written by the refresh goroutines (event `config`: at any moment, also in
+      the middle of a request);
+    * Completion, Hover, Definition, References (also Rename and inline completion) read the
+      document (`GetDocument`, event `req`: the request is taken) and, when the workspace has no
+      resolved journal or — all but the two completions — the document is outside the workspace
+      root's include tree (`workspaceResolvedFor`), ask `documentResolved` for the document's
+      own tree (through `getWorkspaceResolved` / `resolvedForDocument` /
+      `resolvedWithPrimaryPath`).  `documentResolved` is five accesses to shared state, each one
+      `sync.Map` call or one critical section of docVerMu, and each one event `adv` here:
+        `lookup`   `s.resolved.Load` (GetResolved): a stored tree is the answer's tree;
+                   (before the patch: none stored ⇒ the handler answered from the document alone)
+        `version`  `currentDocVersion` (docVerMu): the number of the document's content;
+        `content`  `s.documents.Load`;
+        `load`     `s.loader.LoadFromContent(path, content)` — no lock of the server held;
+        `store`    `storeResolvedIfCurrent` (docVerMu): kept only if the document still has the
+                   number read before; the tree just loaded is the answer's tree either way.
+      Notifications and requests are handled one after the other by one goroutine (DESIGN 3.8):
+      while a request is in progress `change`, `close` and `req` are not enabled; the steps of
+      the background tasks and `config` are, in any interleaving.
     * DidOpen, like didChange and DidSave, also passes the text to `workspace.UpdateFile` and
       drops the file from the loader cache before the task is started: handler-thread work
       under `Workspace.mu` / `Loader.mu` (lock discipline: HL.Generated.Access), not part of
       this model (HL/Model/WsDocs.lean models it).
 
-  `load` (text ↦ include tree) and the handlers are parameters: the theorems hold for every
-  instance.  Core Lean only (the driver imports the guard).
+  `load` (text ↦ include tree; the files on disk are the environment, fixed during a trace) and
+  the handlers are parameters: the theorems hold for every instance.  A request for a document
+  that is not open is answered by a constant before any shared state is read; it is not an
+  event.  Core Lean only.
 -/
 namespace HL.Bg
 
 def upd {α : Type} (f : Nat → α) (u : Nat) (v : α) : Nat → α := fun x => if x = u then v else f x
+
+/-- A diagnostics task in flight: the arguments captured by the `go` statement, and whether it
+    has read the settings (and found diagnostics switched on) yet. -/
+structure Task (Text : Type) where
+  text : Text
+  num : Nat
+  loading : Bool
+  deriving DecidableEq, Repr
+
+/-- Program counter of `documentResolved` on the handler thread, with its locals. -/
+inductive RPc (Text Res : Type)
+  | lookup
+  | version
+  | content (v : Nat)
+  | load (v : Nat) (t : Text)
+  | store (v : Nat) (r : Res)
+  deriving DecidableEq, Repr
+
+/-- The request in progress: document, the handler's local `doc` (the text read by
+    `GetDocument` when the request was taken), program counter. -/
+structure Req (Text Res : Type) where
+  uri : Nat
+  doc : Text
+  pc : RPc Text Res
+  deriving DecidableEq, Repr
+
+/-- What a finished request answered with: the handler is a function of its local `doc` and of
+    the tree it obtained (`none`: it fell back to the document alone). -/
+structure Answer (Text Res : Type) where
+  uri : Nat
+  doc : Text
+  tree : Option Res
+  deriving DecidableEq, Repr
 
 structure St (Text Res : Type) where
   /-- Server.documents -/
@@ -39,54 +91,110 @@ structure St (Text Res : Type) where
   seq : Nat
   /-- Server.docVersions (0 = no entry; numbers start at 1) -/
   ver : Nat → Nat
-  /-- per document: captured text and number of the tasks still in flight, in start order -/
-  pending : Nat → List (Text × Nat)
-  /-- ghost: the task of the document's current number ended without storing -/
-  skipped : Nat → Bool
+  /-- per document: the tasks still in flight, in start order -/
+  pending : Nat → List (Task Text)
+  /-- settings.Features.Diagnostics -/
+  diag : Bool
+  /-- the handler thread: the request being answered, if any -/
+  req : Option (Req Text Res)
+  /-- the answers given so far, oldest first -/
+  answers : List (Answer Text Res)
 
 inductive Ev (Text : Type)
-  /-- didOpen / didChange -/
+  /-- didOpen / didChange (handler thread) -/
   | change (u : Nat) (t : Text)
-  /-- didClose -/
+  /-- didClose (handler thread) -/
   | close (u : Nat)
+  /-- a refresh goroutine stores settings with features.diagnostics = b -/
+  | config (b : Bool)
+  /-- the `i`-th in-flight task of document `u` reads the settings -/
+  | start (u : Nat) (i : Nat)
   /-- the `i`-th in-flight task of document `u` reaches storeResolvedIfCurrent (any order) -/
   | finish (u : Nat) (i : Nat)
-  /-- the `i`-th in-flight task of document `u` ends without loading (diagnostics off) -/
-  | skip (u : Nat) (i : Nat)
+  /-- a request on document `u` whose handler needs the document's own tree is taken -/
+  | req (u : Nat)
+  /-- the handler thread performs its next access to shared state -/
+  | adv
+  deriving DecidableEq, Repr
 
 variable {Text Res : Type}
 
-def St.init : St Text Res := ⟨fun _ => none, fun _ => none, 0, fun _ => 0, fun _ => [], fun _ => false⟩
+def St.init : St Text Res :=
+  ⟨fun _ => none, fun _ => none, 0, fun _ => 0, fun _ => [], true, none, []⟩
 
-def step (load : Text → Res) (σ : St Text Res) : Ev Text → St Text Res
+/-- The request ends with the given tree. -/
+def answer (σ : St Text Res) (r : Req Text Res) (tree : Option Res) : St Text Res :=
+  { σ with req := none, answers := σ.answers ++ [⟨r.uri, r.doc, tree⟩] }
+
+def setPc (σ : St Text Res) (r : Req Text Res) (pc : RPc Text Res) : St Text Res :=
+  { σ with req := some { r with pc := pc } }
+
+/-- One access of `documentResolved` (and, at `lookup` with `fixed = false`, of the code before
+    the patch). -/
+def advance (load : Text → Res) (fixed : Bool) (σ : St Text Res) (r : Req Text Res) : St Text Res :=
+  match r.pc with
+  | .lookup =>
+    match σ.resolved r.uri with
+    | some tree => answer σ r (some tree)
+    | none => if fixed then setPc σ r .version else answer σ r none
+  | .version => if σ.ver r.uri = 0 then answer σ r none else setPc σ r (.content (σ.ver r.uri))
+  | .content v =>
+    match σ.docs r.uri with
+    | none => answer σ r none
+    | some t => setPc σ r (.load v t)
+  | .load v t => setPc σ r (.store v (load t))
+  | .store v res =>
+    answer { σ with resolved := if v = σ.ver r.uri then upd σ.resolved r.uri (some res) else σ.resolved }
+      r (some res)
+
+/-- One transition.  An event that is not enabled leaves the state alone, so every list of
+    events is a trace and every behaviour of the server is one of them. -/
+def step (load : Text → Res) (fixed : Bool) (σ : St Text Res) : Ev Text → St Text Res
   | .change u t =>
-    { docs := upd σ.docs u (some t), resolved := upd σ.resolved u none,
-      seq := σ.seq + 1, ver := upd σ.ver u (σ.seq + 1),
-      pending := upd σ.pending u (σ.pending u ++ [(t, σ.seq + 1)]),
-      skipped := upd σ.skipped u false }
+    match σ.req with
+    | some _ => σ
+    | none =>
+      { σ with docs := upd σ.docs u (some t), resolved := upd σ.resolved u none,
+               seq := σ.seq + 1, ver := upd σ.ver u (σ.seq + 1),
+               pending := upd σ.pending u (σ.pending u ++ [⟨t, σ.seq + 1, false⟩]) }
   | .close u =>
-    { σ with docs := upd σ.docs u none, resolved := upd σ.resolved u none, ver := upd σ.ver u 0 }
+    match σ.req with
+    | some _ => σ
+    | none => { σ with docs := upd σ.docs u none, resolved := upd σ.resolved u none, ver := upd σ.ver u 0 }
+  | .config b => { σ with diag := b }
+  | .start u i =>
+    match (σ.pending u)[i]? with
+    | none => σ
+    | some k =>
+      if k.loading then σ
+      else if σ.diag then { σ with pending := upd σ.pending u ((σ.pending u).set i { k with loading := true }) }
+      else { σ with pending := upd σ.pending u ((σ.pending u).eraseIdx i) }
   | .finish u i =>
     match (σ.pending u)[i]? with
     | none => σ
-    | some (t, v) =>
-      { σ with resolved := if v = σ.ver u then upd σ.resolved u (some (load t)) else σ.resolved,
-               pending := upd σ.pending u ((σ.pending u).eraseIdx i) }
-  | .skip u i =>
-    match (σ.pending u)[i]? with
+    | some k =>
+      if k.loading then
+        { σ with resolved := if k.num = σ.ver u then upd σ.resolved u (some (load k.text)) else σ.resolved,
+                 pending := upd σ.pending u ((σ.pending u).eraseIdx i) }
+      else σ
+  | .req u =>
+    match σ.req, σ.docs u with
+    | none, some t => { σ with req := some ⟨u, t, .lookup⟩ }
+    | _, _ => σ
+  | .adv =>
+    match σ.req with
     | none => σ
-    | some (_, v) =>
-      { σ with pending := upd σ.pending u ((σ.pending u).eraseIdx i),
-               skipped := if v = σ.ver u then upd σ.skipped u true else σ.skipped }
+    | some r => advance load fixed σ r
 
-def run (load : Text → Res) (es : List (Ev Text)) : St Text Res := es.foldl (step load) St.init
+def run (load : Text → Res) (fixed : Bool) (es : List (Ev Text)) : St Text Res :=
+  es.foldl (step load fixed) St.init
 
-/-- What a handler that reads `Server.resolved` answers in state `σ`. -/
-def respond {Resp : Type} (h : Text → Option Res → Resp) (σ : St Text Res) (u : Nat) : Option Resp :=
-  (σ.docs u).map fun t => h t (σ.resolved u)
+/-- The response of a handler `h` (a function of the text and of the tree it was given). -/
+def Answer.response {Resp : Type} (h : Text → Option Res → Resp) (a : Answer Text Res) : Resp :=
+  h a.doc a.tree
 
-/-- The response computed from the document state alone (what a server that awaits its
-    background task before answering returns). -/
+/-- The response computed from the document state alone: the handler applied to the document's
+    text and the include tree of THAT text. -/
 def specRespond {Resp : Type} (load : Text → Res) (h : Text → Option Res → Resp) (σ : St Text Res)
     (u : Nat) : Option Resp :=
   (σ.docs u).map fun t => h t (some (load t))
@@ -94,23 +202,5 @@ def specRespond {Resp : Type} (load : Text → Res) (h : Text → Option Res →
 /-- The fall-back response: the handler without an include tree. -/
 def bareRespond {Resp : Type} (h : Text → Option Res → Resp) (σ : St Text Res) (u : Nat) : Option Resp :=
   (σ.docs u).map fun t => h t none
-
-/-- The task of the document's current content has stored its tree: no task carrying the
-    current number is in flight and it did not end without storing. -/
-def settled (σ : St Text Res) (u : Nat) : Bool :=
-  (σ.pending u).all (fun p => p.2 != σ.ver u) && !σ.skipped u
-
-/-! The executable guard used by the driver on the facts the harness records per response. -/
-
-/-- request kinds of the harness whose handler reads Server.resolved -/
-def readsResolved (k : String) : Bool :=
-  k == "completion" || k == "hover" || k == "definition" || k == "references"
-
-/-- Known finding `resolved-pending`: a handler that reads `Server.resolved`, no resolved
-    journal from the workspace, a document with an include directive, and its include tree
-    possibly not stored yet (a task of the document still in flight, or a configuration with
-    diagnostics switched off had been sent, so that the task may have ended without loading). -/
-def pendingGuard (k : String) (ws hasInclude : Bool) (inflight : Nat) (diagOff : Bool) : Bool :=
-  readsResolved k && !ws && hasInclude && (inflight > 0 || diagOff)
 
 end HL.Bg
